@@ -101,7 +101,11 @@ func (p *MACPayload) UnmarshalBinary(uplink bool, data []byte) error {
 
 		// even when FPort = 0, we store the mac-commands within a DataPayload.
 		// only after decryption we're able to unmarshal them.
-		p.FRMPayload = []Payload{&DataPayload{Bytes: data[7+p.FHDR.FCtrl.fOptsLen+1:]}}
+		frmPayload := &DataPayload{}
+		if err := frmPayload.UnmarshalBinary(uplink, data[7+p.FHDR.FCtrl.fOptsLen+1:]); err != nil {
+			return err
+		}
+		p.FRMPayload = []Payload{frmPayload}
 	}
 
 	return nil
